@@ -9,10 +9,10 @@ cd $WT || exit 3
 git diff -- src > $D/patch.diff
 cp demo.py $D/demo.py 2>/dev/null
 echo "== confirm in worktree $WT"
-PYTHONPATH=$WT/src /venv/bin/python -m pytest -q -p no:cacheprovider --timeout=900 > $D/.tests.txt 2>&1; T=$(tail -1 $D/.tests.txt)
-PYTHONPATH=$WT/src /venv/bin/python demo.py > $D/.demo_with.txt 2>&1; DW=$?
+PYTHONPATH=$WT/src timeout 900 /venv/bin/python -m pytest -q -p no:cacheprovider --timeout=900 > $D/.tests.txt 2>&1; T=$(tail -1 $D/.tests.txt)
+PYTHONPATH=$WT/src timeout 300 /venv/bin/python demo.py > $D/.demo_with.txt 2>&1; DW=$?
 git stash -q -- src
-PYTHONPATH=$WT/src /venv/bin/python demo.py > $D/.demo_without.txt 2>&1; DO=$?
+PYTHONPATH=$WT/src timeout 300 /venv/bin/python demo.py > $D/.demo_without.txt 2>&1; DO=$?
 git stash pop -q
 echo "tests: $T | demo with change exit=$DW | demo without change exit=$DO"
 echo "== run checks against /repo with the change applied"
